@@ -155,5 +155,5 @@ Proof.
     assert (RS : (let '(s', r'0) := r_step (rc_of c) (Sp2.r_items r) o in
                   if rv_eqb (conv_out o out) r'0 then Some s' else None) = Some (Sp2.r_items r')).
     { rewrite SM. now rewrite rv_eqb_refl. }
-    destruct o; try exact RS. congruence.
+    destruct o; try exact RS; try congruence. simpl in T. discriminate.
 Qed.
